@@ -14,7 +14,7 @@ def _eligible(side, tp, price):
     return (tp >= price) if side == "BACK" else (tp <= price)
 
 
-def h06a(c, r=2, v=2, s=2, suspension=False):
+def h06a(c, r=2, v=2, s=2, suspension=False, statuses=(OrderStatus.EXECUTABLE, OrderStatus.CANCELLING)):
     """real SimulatedMiddleware.__call__ (RunnerAnalytics._calculate_traded, _process_simulated_orders, _sort_orders,
     SimulatedOrder._process_traded) on r resting orders of up to s strategies vs an independent ledger"""
     iso = c.choose("simulated_strategy_isolation", [True, False])
@@ -36,8 +36,10 @@ def h06a(c, r=2, v=2, s=2, suspension=False):
             st = strategies[c.choose("o%d_strategy" % j, list(range(s)))] if s > 1 and j > 0 else strategies[0]
             side = c.choose("o%d_side" % j, ["BACK", "LAY"])
             price = c.choose("o%d_price" % j, [1.5, 2.0, 2.5])
+            # (an order with a cancel / update / replace in flight still rests at the exchange and is matched like any other)
+            status = c.choose("o%d_status" % j, list(statuses)) if suspension else OrderStatus.EXECUTABLE
             o, d = ss.resting_limit(c, "o%d" % j, fl, market, st, 100 + j, side=side, price=price, persistence="LAPSE",
-                                    status=OrderStatus.EXECUTABLE, max_frags=0, allow_cancelled=False)
+                                    status=status, max_frags=0, allow_cancelled=False)
             piq = c.cents("o%d_piq" % j, 0, 1000000)
             o.simulated._piq = piq
             orders.append(dict(order=o, side=side, price=price, piq=piq, rem=o.simulated.size_remaining, strategy=st, n0=len(o.simulated.matched)))
@@ -112,6 +114,27 @@ def h06a(c, r=2, v=2, s=2, suspension=False):
             for w, n in zip(orders, n1):
                 c.ob("unchanged-ladder.no-fill", len(w["order"].simulated.matched) == n)
             c.cover("unchanged-ladder")
+        if r == 1 and suspension:
+            # a third update: the cumulative ladder moves again (a level may have gone DOWN at the second update - voided trades - and now rises):
+            # only what traded since the previous update counts, whatever the level showed before that
+            w = orders[0]
+            o = w["order"]
+            n2 = len(o.simulated.matched)
+            rem2, piq2 = o.simulated.size_remaining, o.simulated._piq
+            third = dict(new)
+            for i, tp in enumerate(levels):
+                if tp in new:
+                    third[tp] = new[tp] + c.cents("third_delta", 1, 2000000)  # (one level rises, by any amount)
+                    break
+            bk3 = cm.book([cm.runner(1, tv=[{"price": p, "size": x} for p, x in third.items()]), cm.runner(2)], version=7, pt_ms=cm.T0_MS + 3000)
+            with c.guard("third-update"):
+                market(bk3)
+                mw(market)
+            d3 = cm.total([c.smax(third[tp] - new[tp], 0) / 2 for tp in third if _eligible(w["side"], tp, w["price"])])
+            fill3 = cm.total([f[2] for f in o.simulated.matched[n2:]])
+            lone3 = c.smin(c.smax(d3 - piq2, 0), rem2)
+            c.ob("third-update.lone-order.fill=exactly", c.close(fill3, lone3, HALF * max(len(third), 1)))
+            c.cover("third-update")
 
 
 def h06b(c, L=2):
@@ -160,8 +183,8 @@ def h06c(c, U=3):
 
 HARNESSES = [
     Harness("H06c", h06c, quick=dict(U=3), thorough=dict(U=4), pattern="P3 with symbolic time", requires=["run", "executed"]),
-    Harness("H06a-1", h06a, quick=dict(r=1, v=2, s=1, suspension=True), thorough=dict(r=1, v=3, s=1, suspension=True), pattern="P2 inductive step",
-            requires=["lone", "fill", "unchanged-ladder", "suspended-update"],
+    Harness("H06a-1", h06a, quick=dict(r=1, v=2, s=1, suspension=True), thorough=dict(r=1, v=3, s=1, suspension=True, statuses=(OrderStatus.EXECUTABLE, OrderStatus.CANCELLING, OrderStatus.UPDATING, OrderStatus.REPLACING)), pattern="P2 inductive step",
+            max_paths=(60000, 2000000), requires=["lone", "fill", "unchanged-ladder", "suspended-update", "third-update"],
             outside=["order and traded prices outside {1.5, 2.0, 2.5, 3.0}"]),
     Harness("H06a", h06a, quick=dict(r=2, v=2, s=2), thorough=dict(r=3, v=2, s=2), pattern="P2 inductive step", requires=["lone", "group", "priority", "fill", "unchanged-ladder"],
             wall_s=(300, 3000), max_paths=(300000, 5000000),
